@@ -23,6 +23,8 @@ ManyValuesLimit == 20
 \* switch - 1, switch, switch + 1, in lists shorter than a block and in the tail of longer ones.
 BlockLen == 128
 VintSwitches == {2 ^ 7, 2 ^ 14}         \* (2^21 positions in one document is not exercised)
+\* a position delta of 2^28 or more needs a fifth byte (positions are explicit in pre-tokenized text)
+BigPositionGaps == {2 ^ 28 - 1, 2 ^ 28, 2 ^ 28 + 1, 2 ^ 30}
 TERMINATED == 2147483647
 
 SeqSet(s) == {s[i] : i \in 1..Len(s)}
